@@ -169,3 +169,25 @@ Definition with_build (v : version) (x : bytes) : version :=
 
 Lemma vcmp_build a b x y : is_pypi a -> is_pypi b -> vcmp (with_build a x) (with_build b y) = vcmp a b.
 Proof. intros [Sa [ea Ea]] [Sb [eb Eb]]. unfold vcmp, compare. simpl. rewrite Sa, Sb, Ea, Eb. reflexivity. Qed.
+
+(* ---------- C10: the round trip through the canonical string ---------- *)
+(* observable of the round trip on one string: canonical string, comparison of the
+   original with the re-parsed version, canonical string of the re-parsed version *)
+Definition round_trip (s : bytes) : option (bytes * Z * bytes) :=
+  match parse_pypi s with
+  | Ok v => match parse_pypi (canon true v) with
+            | Ok v' => Some (canon true v, vcmp v v', canon true v')
+            | _ => None
+            end
+  | _ => None
+  end.
+
+
+Lemma round_trip_inv s c z c' : round_trip s = Some (c, z, c') ->
+  exists v v', parse_pypi s = Ok v /\ parse_pypi (canon true v) = Ok v' /\ c = canon true v /\ z = vcmp v v' /\ c' = canon true v'.
+Proof.
+  unfold round_trip. destruct (parse_pypi s) as [v| | |] eqn:E1; try discriminate.
+  destruct (parse_pypi (canon true v)) as [v'| | |] eqn:E2; try discriminate.
+  intros H; inversion H; subst. exists v, v'. repeat split; auto.
+Qed.
+
